@@ -26,6 +26,29 @@ CHECKS: dict[str, dict] = {
         "thousands of real renders against the same clauses after every token.",
         design_ref="DESIGN.md 3 C01",
     ),
+    "C06": dict(
+        technique="Terminal.tla in absolute line coordinates + TLC trace validation of the bytes real draw() "
+        "calls deliver (both APIs); DrawValidate.tla table replayed into the real draw()",
+        text="Every token of the output of ~2000 real draw() calls (render size x padding/alignment x frames x "
+        "loops x start row incl. forced scrolling x tty/non-tty x block/kitty/iterm2 x terminal identity) "
+        "is folded through the terminal model by TLC with the clauses 'nothing outside the padded region', "
+        "'frames never leave the first frame's rectangle', 'last frame shown, padding blank, cursor visible "
+        "at column 0 of the line below, exactly the necessary scrolling'; the documented validation table "
+        "is enumerated by TLC and replayed (verdict class, nothing written before rejection).",
+        design_ref="DESIGN.md 3 C06",
+    ),
+    "C07": dict(
+        category="fault_enumeration",
+        technique="fault enumeration over every pre-clean-up write/flush/sleep/render of draw() x delivered "
+        "prefix x {KeyboardInterrupt, Exception}; each faulted byte stream judged by TLC on Terminal.tla "
+        "+ VT parser rules (Trace_Draw.tla, FaultEnd clauses)",
+        text="The clean run of each scenario is recorded to enumerate the operations draw() issues; the scenario "
+        "is re-run once per (operation, prefix class / character position, exception kind) against a "
+        "faulting tty-like stdout with real termios calls on a pty; TLC checks cursor visible, attributes "
+        "reset, no open control string / chunked transfer, termios restored, data finalized once, image "
+        "size and frame unchanged, documented outcome.",
+        design_ref="DESIGN.md 3 C07",
+    ),
     "C08": dict(
         technique="TLA+ state machine of RenderIterator (RenderIter.tla) explored by TLC; every edge of the "
         "state graph replayed into the real iterator (spec->code) and random real histories validated "
